@@ -88,6 +88,8 @@ def step (s : St) (line : String) : St × String :=
     -- remember the tree committed for each store version
     let committed := if b.isStore && b.version != s.base.version then (b.version, b.tree) :: s.committed else s.committed
     let committed := if line == "store" then [] else committed
+    -- `rollback v`: the heights above v are gone; v itself is served from whatever tree the store now has for it
+    let committed := if line.startsWith "rollback " then (b.version, b.tree) :: s.committed.filter (·.1 < b.version) else committed
     ({ base := b, committed := committed }, r)
 
 end Driver.C16
